@@ -12,6 +12,8 @@ MODELS = {
     "contract-ewp": "contract stub for Span::enter_with_parent in the add_event/add_properties harnesses (child = Span::new(parent's issued token, name, None)); the real function is decided separately by sp_enter_with_parents_links and sp_from_span_fields",
     "lemma-stack": "composition lemma stack-top-locality (on paper): every LocalSpanStack operation touches only the top scope, so frames verified at depth <= 2 extend to any depth",
     "oracle-jaeger": "stubs for JaegerReporter::convert (records the sub-range it was given), JaegerReporter::serialize (buffer of length 60 + sum of symbolic per-span sizes, clamped to 8191) and UdpSocket::send_to (logs length and range); assumption: the real encoder's length is additive in the spans",
+    "hashmap-empty": "stub: std::hash::RandomState::new -> zeroed keys (HashMap::new only; nothing is ever inserted: sets without events/properties)",
+    "stub-names": "recording stubs for LocalSpan::enter_with_local_parent and Span::enter_with_local_parent in twin_names_*: they record the name argument and return the no-op value (the span stack is not involved)",
     "kani": "Kani 0.68 MIR->goto translation, CBMC 6.11 symbolic execution, CaDiCaL; dev profile (debug assertions and overflow checks on)",
 }
 
@@ -56,7 +58,7 @@ for c, p in _shapes:
     if p < 2:
       H("fastrace", "util::spsc", f"q_step_force_send_c{c}p{p}", ["C01", "C04", "C09"],
         sym=f"shape: capacity {c}, overflow list {p}; symbolic: ring occupancy 0..={c}, consumer yield decision before every push", bound=QB, models=QM)
-    H("fastrace", "util::spsc", f"q_step_send_c{c}p{p}", ["C01", "C09"],
+    H("fastrace", "util::spsc", f"q_step_send_c{c}p{p}", ["C01", "C04", "C09"],
       sym=f"shape: capacity {c}, overflow list {p}; symbolic: ring occupancy 0..={c}, consumer yield decision before every push", bound=QB, models=QM)
     if p > 0:
         H("fastrace", "util::spsc", f"q_step_exit_c{c}p{p}", ["C01", "C04", "C09"],
@@ -128,7 +130,8 @@ for n, props, sym in [
     H("fastrace", "local::local_span_line", n, props, sym=sym, bound="a SpanLine as a plain value, <= 3 records, tokens of 1..2 items", models=SLM)
 for n, props, sym in [
     ("st_no_parent_inert", ["C10", "C16", "C07"], "none"),
-    ("st_scope_frame", ["C10"], "outer and inner token items, generator state"),
+    ("st_scope_frame", ["C10", "C05"], "outer and inner token items, inner sampled or not"),
+    ("st_scope_frame_traceless", ["C10"], "outer token item, empty-token scope or collector scope"),
     ("st_span_frame", ["C10"], "token item, generator state"),
     ("st_capacity", ["C09", "C07"], "token items"),
 ]:
@@ -136,7 +139,7 @@ for n, props, sym in [
       mem_gb=30 if n in ("st_span_frame",) else 16, tier="thorough" if n in ("st_span_frame",) else "quick", cap_s=1500)
 
 for n, props, sym in [
-    ("sp_guard_drop_pushes_local_spans", ["C01", "C10", "C13"], "token item, span id, clock"),
+    ("sp_guard_drop_pushes_local_spans", ["C01", "C10", "C13", "C05"], "token item (sampled or not), span id, clock"),
     ("sp_guard_when_stack_full", ["C07", "C09"], "token item"),
     ("sp_noop_set_local_parent", ["C16", "C10"], "none"),
 ]:
@@ -144,7 +147,9 @@ for n, props, sym in [
 for n, props, sym in [
     ("ls_current_local_parent_empty_token", ["C07", "C11"], "generator state"),
     ("ls_current_local_parent_fields", ["C11", "C10"], "token item (all fields)"),
+    ("ls_current_local_parent_two_items", ["C11", "C05"], "two token items (all fields, both flags)"),
     ("ls_closure_reenters_add_properties", ["C07"], "token item"),
+    ("ls_closure_reenters_lazy_iterator", ["C07"], "token item"),
     ("ls_tls_teardown_local_api", ["C07", "C16"], "none (span stack destroyed)"),
     ("ls_tls_teardown_span_api", ["C07", "C16"], "none (span stack destroyed)"),
     ("ls_tls_teardown_sender_gone", ["C07"], "token item, collect id"),
@@ -158,6 +163,7 @@ H("fastrace", "collector::id", "c12_encode_shape", ["C12"], sym="trace id (128 b
 H("fastrace", "collector::id", "c12_decode_ascii_le4", ["C12"], sym="every ASCII string of length <= 4", bound="input length <= 4", models=CM)
 H("fastrace", "collector::id", "c12_decode_fields_112", ["C12"], sym="00-H-H-HH with 4 arbitrary ASCII bytes", bound="field lengths 1,1,2", models=CM, cap_s=2400, mem_gb=16, tier="thorough")
 H("fastrace", "collector::id", "c12_decode_fields_222", ["C12"], sym="00-HH-HH-HH with 6 arbitrary ASCII bytes", bound="field lengths 2,2,2", models=CM, cap_s=2400, mem_gb=30, tier="thorough")
+H("fastrace", "collector::id", "c12_decode_one_corrupted_byte", ["C12"], sym="position 0..23 and replacement byte (any ASCII) in a valid 24-byte header with a 17-digit trace id", bound="one corrupted byte in one fixed valid header", models=CM, cap_s=2400, mem_gb=24)
 H("fastrace", "collector::id", "c12_id_display", ["C12"], sym="all trace ids and span ids, digit position", bound="all values", models=CM)
 H("fastrace", "collector::id", "c12_id_fromstr_short", ["C12"], sym="every ASCII string of length <= 3", bound="input length <= 3", models=CM)
 
@@ -187,9 +193,13 @@ for n, sym, kw in [
     ("twin_sync_noparent", "a:u8, b:u8 (shapes: early return; `?` + &mut log + name=)", {}),
     ("twin_generic_method_noparent", "array, index, Option<u8> (shapes: generic method with lifetime + short_name; properties)", {}),
     ("twin_async_noparent", "a:u8 (shape: async fn awaiting a once-pending future)", dict(tier="thorough", mem_gb=30, cap_s=2400)),
+    ("twin_names_sync", "a:u8, b:u8 (names and span counts of the sync shapes; recording stubs for the two entry points)", {}),
+    ("twin_names_async_enter_on_poll", "a:u8 (name and one local span per poll for async + enter_on_poll)", {}),
+    ("twin_names_async_in_span", "a:u8 (name and one span per call for an async fn)", dict(tier="thorough", mem_gb=30, cap_s=2400)),
     ("twin_async_enter_on_poll_noparent", "a:u8 (shape: async fn + enter_on_poll)", {}),
 ]:
-    H("harness-crate", "twins", n, ["C15"], sym=sym, bound="6-shape corpus of annotated functions with hand-written twins; all argument values", models=SPM, **kw)
+    H("harness-crate", "twins", n, ["C15"], sym=sym, bound="6-shape corpus of annotated functions with hand-written twins; all argument values",
+      models=SPM + (("stub-names",) if n.startswith("twin_names") else ()), **kw)
 
 # ---------------------------------------------------------------- disabled build (C16)
 for n, sym in [
@@ -201,9 +211,15 @@ for n, sym in [
 
 # ---------------------------------------------------------------- Jaeger splitter (C20)
 JM = ("kani", "oracle-jaeger")
-for n, tier in [(2, "quick"), (3, "quick"), (4, "thorough")]:
+for n, tier in [(2, "quick"), (3, "quick"), (4, "thorough"), (5, "quick")]:
     H("fastrace-jaeger", "", f"jg_splitter_n{n}", ["C20"], sym=f"per-span encoded sizes w[0..{n}) each in 1..=9000", bound=f"batch of {n} spans, every size distribution",
       models=JM, termination=True, tier=tier, cap_s=1800, mem_gb=20, oracle_stubs=True)
+
+# ---------------------------------------------------------------- collection / conversion of local span sets (C17, C18, C02)
+H("fastrace", "local::local_collector", "lc_collect_stamps_collection_time", ["C17", "C18"],
+  sym="clock, three instants, ids, epoch, first span finished or not", bound="a scope built directly with two top-level records (finished-or-open, then open)", models=("kani", "clock"), mem_gb=20, cap_s=1500)
+H("fastrace", "collector::global_collector", "gc_to_span_records_finished_then_open", ["C17", "C18", "C02"],
+  sym="clock, four instants, ids, trace id, parent id, nested or sibling", bound="LocalSpansInner of two spans without events/properties (the dangling map stays empty)", models=("kani", "clock", "hashmap-empty"), mem_gb=20, cap_s=1500)
 
 COLLECTOR_OUT = "everything downstream of Receiver::try_recv (handle_commands, per-trace maps, amend/mount, Reporter::report, report interval, flush())"
 
